@@ -81,7 +81,7 @@ static const char* kind_of(const std::string& name) {
   if (name == "UTC" || name == "UTC0") return "utc";
   if (name.compare(0, 9, "Fixed/UTC") == 0) return "fixed";
   std::string b = base_of(name);
-  return b.compare(0, 3, "bad") == 0 ? "bad" : "good";
+  return (b.compare(0, 3, "bad") == 0 || b == "A") ? "bad" : "good";
 }
 static void slog(const char* ev, int th, const std::string& name, const std::string& extra = "") {
   // caller holds G
@@ -232,7 +232,7 @@ static std::string obs_json(int t) {
   for (int x : g_infac) { s += (f ? "\"t" : ",\"t") + std::to_string(x + 1) + "\""; f = false; }
   s += "],\"calls\":{";
   f = true;
-  for (auto& kv : g_calls) { s += (f ? "" : ","); s += vt::jstr(base_of(kv.first)) + ":" + std::to_string(kv.second); f = false; }
+  for (auto& kv : g_calls) { s += (f ? "" : ","); s += vt::jstr(base_of(kv.first) == "A" ? std::string("bad") : base_of(kv.first)) + ":" + std::to_string(kv.second); f = false; }
   s += "}";
   return s;
 }
@@ -261,6 +261,9 @@ static std::string real_name(long beh, const std::string& n) {
     char b[40]; snprintf(b, sizeof b, "Fixed/UTC+%02ld:%02ld:%02ld", o / 3600, o / 60 % 60, o % 60);
     return b;
   }
+  // the model's name "bad" is spelled as the good name "a" of the same behaviour in the other letter case: a name the
+  // data source does not have, equal to a loadable one ignoring case (names are distinct strings: no sharing)
+  if (n == "bad") return "l" + std::to_string(beh) + "/A";
   return "L" + std::to_string(beh) + "/" + n;
 }
 
@@ -269,6 +272,44 @@ int main(int argc, char** argv) {
   std::ifstream in(argv[1]);
   g_out = fopen(argv[2], "w");
   { std::ifstream zf(argv[3], std::ios::binary); g_good.assign((std::istreambuf_iterator<char>(zf)), std::istreambuf_iterator<char>()); }
+  // --firstuse: the very first calls into the library made by this process, from 8 threads released together:
+  // all of them must see one and the same UTC value, and a name that cannot be loaded fails for all of them
+  if (argc > 4 && strcmp(argv[4], "--firstuse") == 0) {
+    g_out = fopen(argv[2], "w");
+    const int N = 8;
+    std::atomic<int> ready(0), go(0);
+    time_zone got[N];
+    bool okv[N];
+    std::vector<std::thread> ths;
+    for (int i = 0; i < N; ++i) {
+      ths.emplace_back([&, i]() {
+        ++ready;
+        while (!go.load(std::memory_order_acquire)) {}
+        okv[i] = true;
+        switch (i % 4) {
+          case 0: got[i] = utc_time_zone(); break;
+          case 1: okv[i] = load_time_zone("L0/bad2", &got[i]); break;
+          case 2: { time_zone d; (void)d.name(); got[i] = d; break; }
+          default: okv[i] = load_time_zone("UTC", &got[i]); break;
+        }
+      });
+    }
+    while (ready.load() < N) {}
+    go.store(1, std::memory_order_release);
+    for (auto& th : ths) th.join();
+    time_zone u = utc_time_zone();
+    int equal = 1, badok = 1;
+    for (int i = 0; i < N; ++i) {
+      if (!(got[i] == u)) equal = 0;
+      if (i % 4 == 1 && okv[i]) badok = 0;
+      if (i % 4 == 3 && !okv[i]) badok = 0;
+    }
+    time_zone again;
+    if (load_time_zone("L0/bad2", &again) || !(again == u)) badok = 0;
+    fprintf(g_out, "{\"e\":\"FirstUse\",\"threads\":%d,\"equal\":%d,\"badok\":%d}\n", N, equal, badok);
+    fclose(g_out);
+    return 0;
+  }
   // --fresh: nothing is loaded before the first behaviour (the very first loads of the process race)
   bool fresh = argc > 4 && strcmp(argv[4], "--fresh") == 0;
   if (!fresh) build_ref();
